@@ -124,10 +124,10 @@ def c_out(r):
                  cpair(c_opt(r["from"], c_state), c_opt(r["to"], c_state)), cN(r["res"]))
     gates = clist([cpair(*[cN(v) for v in g]) for g in r["gates"]])
     regs = []
-    for (s, e, cnt, res, curr, gs) in r["regions"]:
-        cu = "None" if not curr else "(Some %s)" % cpair(cN(curr[0]), cN(curr[1]), cN(curr[2]), cbool(curr[3]))
-        regs.append(cpair(cZ(s), cZ(e), cN(cnt), cN(res), cu,
-                          clist([cpair(cN(a), cN(b), cN(c)) for a, b, c in gs])))
+    for (s, e, res, curr, gs) in r["regions"]:
+        cu = "None" if not curr else "(Some %s)" % cpair(cN(curr[0]), cN(curr[1]), cbool(curr[2]))
+        regs.append(cpair(cZ(s), cZ(e), cN(res), cu,
+                          clist([cpair(cN(a), cN(b)) for a, b in gs])))
     return cpair(oobs, cpair(gates, c_opt(r["lead"], c_state), clist(regs)))
 
 
